@@ -256,8 +256,37 @@ def check_field_ranks(run, A):
     run.floor('einsum operands that are documented fields', n, 8)
 
 
+EXTENT_CHANGERS = ('numpy.resize', 'method:resize', 'numpy.tile', 'numpy.repeat', 'numpy.reshape', 'numpy.concatenate', 'numpy.pad', 'numpy.stack')
+
+
+def check_initial_expansion(run, A):
+    """an initial affiliation with singleton leading axes behaves as if repeated: on its way into the first M-step the given
+    initialisation is used as it is or expanded with np.broadcast_to - nothing else changes its extent (np.resize / np.tile /
+    reshape repeat the flattened data cyclically and hand slice [i, j] the start values of another slice)"""
+    from .. import loop as LP
+    from ..walk import data_derives
+    n = 0
+    for cname in LP.TRAINERS:
+        L = LP.recognise(A, cname)
+        aff = LP.m_step_arg(L, name='affiliation')
+        if aff is None:
+            raise AnalysisError(f'{L.fn.qual}: affiliation argument of the M-step not found')
+        for leaf in LP.value_sources(aff):
+            x = strip_views(leaf)
+            if not data_derives(x, 'initialization'):
+                continue
+            n += 1
+            bad = [y for y in walk_terms(x, into_mu=False) if is_call_to(y, *EXTENT_CHANGERS) and data_derives(call_arg(y, 0), 'initialization')]
+            run.check(not bad, 'R-BCAST', f'{cname}Trainer: the given initialisation reaches the first M-step unchanged or broadcast', L.fn.loc(getattr(x, 'node', None)), '',
+                      f'`{norm_stmt(bad[0].node) if bad else ""}` changes the extent of the start affiliation by something else than np.broadcast_to (np.resize / np.tile / reshape fill '
+                      f'cyclically in C order: with a non-singleton leading axis followed by a singleton one, slices start from another slice\'s initialisation)',
+                      construct=f'R-BCAST::{L.fn.qual}::initial-expansion')
+    run.floor('initial-affiliation sources of the 7 mixture trainers', n, 7)
+
+
 def check(run):
     A = run.A
+    check_initial_expansion(run, A)
     run.explanation = (
         'Leading-axes polymorphism decided structurally for every distribution model / trainer and mixture trainer documented with `...`: literal axes count from the right and '
         'axis-less reductions occur only in listed scalar idioms; every value that escapes (stored field / return value) from a function that flattens leading axes with reshape(-1, ...) '
